@@ -89,6 +89,13 @@ pub const MAX_UNCLES: usize = 2;
 /// a header may be stamped at most this far ahead of the verifying node's clock
 pub const ALLOWED_FUTURE_MS: u64 = 15_000;
 pub const PROPOSER_RATIO: (u64, u64) = (4, 10);
+/// cost table of the model's fixed scripts (see `World::script_cost`)
+pub const COST_ALWAYS_SUCCESS_VM0: u64 = 537;
+pub const COST_ALWAYS_SUCCESS_TYPE: u64 = 539;
+pub const COST_WITNESS_LOCK: u64 = 1138;
+/// size of a proposal short id on the wire; uncles' proposals do not count towards the block size
+pub const PROPOSAL_ID_BYTES: usize = 10;
+pub const MAX_EXTENSION_BYTES: usize = 96;
 
 #[derive(Clone, Debug)]
 pub struct MEpoch {
@@ -253,6 +260,8 @@ pub struct MBlock {
     pub chain_valid: bool,
     /// fees of the committed non-cellbase transactions, in block order
     pub fees: Vec<u64>,
+    /// script cycles of the committed non-cellbase transactions, in block order (model cost table)
+    pub cycles: Vec<Option<u64>>,
     /// proposal ids of this block incl. its uncles'
     pub union_proposals: BTreeSet<ProposalShortId>,
     /// state after this block (for blocks on an invalid chain: as if the block had not been broken;
@@ -283,6 +292,8 @@ pub struct World {
     /// newest timestamp among the ordinary blocks (those not stamped relative to the node's clock):
     /// the simulated node's clock starts there
     pub max_ts: u64,
+    /// the scenario delivers a prefix with scripts disabled (such blocks record 0 cycles)
+    pub assume_valid: bool,
 }
 
 /// What to put into a new block.
@@ -317,6 +328,11 @@ pub struct Recipe {
     /// the newest ordinary block's time still accepts: now + 15 s), "future_over" (one ms later)
     #[serde(default, skip_serializing_if = "Option::is_none")]
     pub ts_mode: Option<String>,
+    /// fill the block up to a consensus limit exactly (still valid): "bytes" pads the cellbase
+    /// witness message until the serialized size (uncles' proposals not counted) equals
+    /// max_block_bytes; "proposals" pads the proposal list with unknown ids up to max_block_proposals
+    #[serde(default, skip_serializing_if = "Option::is_none")]
+    pub fill: Option<String>,
 }
 
 pub fn always_failure_bin() -> Bytes {
@@ -558,6 +574,7 @@ impl World {
             invalid: None,
             chain_valid: true,
             fees: vec![0; genesis.transactions().len().saturating_sub(1)],
+            cycles: Vec::new(),
             union_proposals: BTreeSet::new(),
             st: Some(Arc::new(st)),
             epoch,
@@ -581,6 +598,7 @@ impl World {
             tx_by_id: BTreeMap::new(),
             planted: BTreeMap::new(),
             max_ts: 0,
+            assume_valid: false,
         }
     }
 
@@ -824,6 +842,53 @@ impl World {
             total += w - c.capacity();
         }
         total
+    }
+
+    /// Cycles one script group costs: every script the model uses is a fixed program whose cost does
+    /// not depend on the transaction (always_success as lock or type; the NervosDAO stand-in, also
+    /// always_success but referenced by type hash and therefore run by the newest VM; the
+    /// witness lock that `exec`s always_success out of witness 0). The constants are measured
+    /// once and re-validated against the node's recorded cycles on every attached block (C02).
+    pub fn script_cost(&self, s: &Script) -> Option<u64> {
+        let ht: u8 = s.hash_type().into();
+        let hv = |t: ScriptHashType| -> u8 { let b: packed::Byte = t.into(); b.into() };
+        if s.code_hash() == self.code_hash && ht == hv(ScriptHashType::Data) {
+            Some(COST_ALWAYS_SUCCESS_VM0)
+        } else if s.code_hash() == self.dao_type_hash && ht == hv(ScriptHashType::Type) {
+            Some(COST_ALWAYS_SUCCESS_TYPE)
+        } else if s.code_hash() == self.wcode_hash && ht == hv(ScriptHashType::Data1) {
+            Some(COST_WITNESS_LOCK)
+        } else {
+            None
+        }
+    }
+
+    /// Script cycles of a transaction: one run per distinct lock script among the inputs and per
+    /// distinct type script among inputs and outputs. None = an input is unknown or a script is
+    /// not in the cost table.
+    pub fn tx_cycles(&self, tx: &TransactionView, cells: &BTreeMap<OutPoint, MCell>) -> Option<u64> {
+        let mut locks: BTreeSet<Vec<u8>> = BTreeSet::new();
+        let mut types: BTreeSet<Vec<u8>> = BTreeSet::new();
+        let mut sum = 0u64;
+        for i in tx.inputs().into_iter() {
+            let c = cells.get(&i.previous_output())?;
+            if locks.insert(c.output.lock().as_slice().to_vec()) {
+                sum += self.script_cost(&c.output.lock())?;
+            }
+            if let Some(t) = c.output.type_().to_opt() {
+                if types.insert(t.as_slice().to_vec()) {
+                    sum += self.script_cost(&t)?;
+                }
+            }
+        }
+        for o in tx.outputs().into_iter() {
+            if let Some(t) = o.type_().to_opt() {
+                if types.insert(t.as_slice().to_vec()) {
+                    sum += self.script_cost(&t)?;
+                }
+            }
+        }
+        Some(sum)
     }
 
     pub fn add_tx(&mut self, tx: TransactionView, fee: u64) -> usize {
@@ -1091,9 +1156,14 @@ impl World {
         let mut commits: Vec<usize> = Vec::new();
         let mut order: Vec<usize> = (0..self.txs.len()).collect();
         rng.shuffle(&mut order);
+        // block cycle limit: a valid block stops committing before the sum of script cycles passes
+        // max_block_cycles; the mutant "block_cycles_over" takes exactly one transaction too many
+        let want_cycles_over = recipe.mutation.as_deref() == Some("block_cycles_over");
+        let mut cyc_sum = 0u64;
+        let mut cycles_over = false;
         if number > self.cfg.w_close {
             for ti in order.iter() {
-                if commits.len() >= recipe.commit {
+                if commits.len() >= recipe.commit && !(want_cycles_over && !cycles_over && commits.len() < recipe.commit + 4) {
                     break;
                 }
                 let t = &self.txs[*ti];
@@ -1117,6 +1187,21 @@ impl World {
                     });
                 if !ok || !deps_ok {
                     continue;
+                }
+                match self.tx_cycles(&t.tx, &cells) {
+                    // a script outside the cost table: not committed when the limit is tight
+                    None if self.cfg.max_block_cycles < 1_000_000 => continue,
+                    None => {}
+                    Some(c) => {
+                        if cyc_sum + c > self.cfg.max_block_cycles {
+                            if want_cycles_over && !cycles_over {
+                                cycles_over = true;
+                            } else {
+                                continue;
+                            }
+                        }
+                        cyc_sum += c;
+                    }
                 }
                 for i in t.tx.inputs().into_iter() {
                     cells.remove(&i.previous_output());
@@ -1151,6 +1236,19 @@ impl World {
             for t in self.txs.iter() {
                 if t.bad.map(|b| b.starts_with("dao")).unwrap_or(false) && !proposals.contains(&t.id) && proposals.len() < recipe.propose + 2 && t.tx.inputs().into_iter().all(|i| pst.cells.contains_key(&i.previous_output())) {
                     proposals.push(t.id.clone());
+                }
+            }
+        }
+
+        // --- proposal limit: a valid block carries at most max_block_proposals ids
+        let plimit = self.cfg.max_block_proposals as usize;
+        proposals.truncate(plimit);
+        if recipe.fill.as_deref() == Some("proposals") && plimit <= 64 {
+            // exactly at the limit: padded with ids of transactions nobody knows
+            while proposals.len() < plimit {
+                let id = ProposalShortId::from_slice(&rng.bytes(10)).unwrap();
+                if !proposals.contains(&id) {
+                    proposals.push(id);
                 }
             }
         }
@@ -1341,6 +1439,73 @@ impl World {
                     }
                 }
             }
+            Some("block_cycles_over") => {
+                if cycles_over {
+                    structural = Some("structural:block_cycles_over");
+                }
+            }
+            Some("proposals_over_limit") => {
+                // one id more than max_block_proposals
+                if plimit <= 64 {
+                    while proposals.len() < plimit + 1 {
+                        let id = ProposalShortId::from_slice(&rng.bytes(10)).unwrap();
+                        if !proposals.contains(&id) {
+                            proposals.push(id);
+                        }
+                    }
+                    structural = Some("structural:proposals_over_limit");
+                }
+            }
+            Some("proposals_duplicate") => {
+                // the same id twice, within the limit
+                if plimit >= 2 {
+                    if proposals.is_empty() {
+                        proposals.push(ProposalShortId::from_slice(&rng.bytes(10)).unwrap());
+                    }
+                    proposals.truncate(plimit - 1);
+                    let k = rng.idx(proposals.len());
+                    let dup = proposals[k].clone();
+                    proposals.push(dup);
+                    structural = Some("structural:proposals_duplicate");
+                }
+            }
+            Some(m @ ("uncle_proposals_over_limit" | "uncle_proposal_duplicate" | "uncle_proposals_hash" | "uncle_bad_target")) => {
+                // an otherwise legal uncle (fresh sibling of the parent) whose proposal list breaks the
+                // per-uncle limit, repeats an id, is not the one its header commits to, or whose target
+                // is not the epoch's
+                if let Some(gp) = pblock.parent {
+                    if pblock.epoch.number == ep.number && pblock.view.compact_target() == ep.compact && (m != "uncle_proposals_over_limit" || plimit <= 64) {
+                        let ids = |r: &mut simcore::Rng, n: usize| -> Vec<ProposalShortId> {
+                            let mut v: Vec<ProposalShortId> = Vec::new();
+                            while v.len() < n {
+                                let id = ProposalShortId::from_slice(&r.bytes(10)).unwrap();
+                                if !v.contains(&id) {
+                                    v.push(id);
+                                }
+                            }
+                            v
+                        };
+                        let (u, why) = match m {
+                            "uncle_proposals_over_limit" => {
+                                let v = ids(&mut rng, plimit + 1);
+                                (self.forged_uncle(gp, recipe.ts_delta + 19, recipe.seed ^ 0x0b1, Some(v), true, false), "structural:uncle_proposals_over_limit")
+                            }
+                            "uncle_proposal_duplicate" if plimit >= 2 => {
+                                let mut v = ids(&mut rng, 1);
+                                v.push(v[0].clone());
+                                (self.forged_uncle(gp, recipe.ts_delta + 23, recipe.seed ^ 0x0b2, Some(v), true, false), "structural:uncle_proposal_duplicate")
+                            }
+                            "uncle_proposals_hash" | "uncle_proposal_duplicate" => {
+                                let v = ids(&mut rng, 1);
+                                (self.forged_uncle(gp, recipe.ts_delta + 29, recipe.seed ^ 0x0b3, Some(v), false, false), "structural:uncle_proposals_hash")
+                            }
+                            _ => (self.forged_uncle(gp, recipe.ts_delta + 31, recipe.seed ^ 0x0b4, None, false, true), "structural:uncle_bad_target"),
+                        };
+                        uncles = vec![u];
+                        structural = Some(why);
+                    }
+                }
+            }
             Some("commit_immature_since") => {
                 // proposed in the window, inputs live and mature, but its absolute time lock is still ahead
                 let mut extra: Option<usize> = None;
@@ -1427,14 +1592,65 @@ impl World {
             }
             _ => {}
         }
-        if matches!(recipe.mutation.as_deref(), Some("uncle_sibling" | "uncle_duplicate" | "uncle_double_inclusion" | "commit_unproposed" | "uncle_unknown_parent" | "commit_immature_since" | "uncle_too_many" | "uncle_other_epoch" | "uncle_pow_invalid" | "commit_bad_tx")) {
+        if matches!(recipe.mutation.as_deref(), Some("uncle_sibling" | "uncle_duplicate" | "uncle_double_inclusion" | "commit_unproposed" | "uncle_unknown_parent" | "commit_immature_since" | "uncle_too_many" | "uncle_other_epoch" | "uncle_pow_invalid" | "commit_bad_tx"
+            | "block_cycles_over" | "proposals_over_limit" | "proposals_duplicate" | "uncle_proposals_over_limit" | "uncle_proposal_duplicate" | "uncle_proposals_hash" | "uncle_bad_target")) {
             recipe.mutation = structural.map(|s| s.to_string());
         }
         if recipe.mutation.is_none() {
             recipe.mutation = planted_invalid.map(|s| s.to_string());
         }
+        if structural != Some("structural:proposals_over_limit") {
+            proposals.truncate(plimit);
+        }
         let committed: Vec<MTx> = commits.iter().map(|i| self.txs[*i].clone()).collect();
         self.assemble(parent, &pst, ep, ts, &recipe, committed, proposals, uncles)
+    }
+
+    /// A nonce for `raw` that meets (or, with `want_bad`, fails) its target under the run's engine.
+    pub fn mine(&self, raw: &packed::RawHeader, start: u128, want_bad: bool) -> u128 {
+        if self.cfg.pow == 0 {
+            return start;
+        }
+        let pow_hash = ckb_hash::blake2b_256(raw.as_slice());
+        let compact: u32 = raw.compact_target().unpack();
+        let mut nonce = start;
+        let mut tries = 0u64;
+        while pow_ok(self.cfg.pow, &pow_hash, nonce, compact) == want_bad {
+            nonce = nonce.wrapping_add(1u128 << 64).wrapping_add(0x9e37_79b9);
+            tries += 1;
+            if tries > 50_000_000 {
+                break;
+            }
+        }
+        nonce
+    }
+
+    /// A fresh child of `gp` (never delivered as a block) turned into an uncle whose proposal list
+    /// and/or target were tampered with; its nonce is mined again where the header changed.
+    pub fn forged_uncle(&mut self, gp: usize, ts_delta: u64, seed: u64, proposals: Option<Vec<ProposalShortId>>, fix_hash: bool, flip_target: bool) -> UncleBlockView {
+        let n0 = self.blocks.len();
+        let sib = self.build_plain(gp, ts_delta, seed, vec![], vec![]);
+        let u = self.blocks[sib].view.as_uncle();
+        self.rollback_to(n0);
+        let h = u.header();
+        let props: packed::ProposalShortIdVec = match &proposals {
+            Some(p) => p.clone().pack(),
+            None => u.data().proposals(),
+        };
+        let mut raw = h.data().raw().as_builder();
+        if fix_hash {
+            raw = raw.proposals_hash(props.calc_proposals_hash());
+        }
+        if flip_target {
+            raw = raw.compact_target(Pack::<packed::Uint32>::pack(&(h.compact_target() ^ 1)));
+        }
+        let raw = raw.build();
+        let nonce = if raw.as_slice() != h.data().raw().as_slice() { self.mine(&raw, h.nonce(), false) } else { h.nonce() };
+        packed::UncleBlock::new_builder()
+            .header(packed::Header::new_builder().raw(raw).nonce(nonce.pack()).build())
+            .proposals(props)
+            .build()
+            .into_view()
     }
 
     /// A child of `parent` with exactly the given proposals and commits (no uncles, no new txs).
@@ -1469,6 +1685,23 @@ impl World {
         proposals: Vec<ProposalShortId>,
         uncles: Vec<UncleBlockView>,
     ) -> usize {
+        self.assemble_padded(parent, pst, ep, ts, recipe, committed, proposals, uncles, 0)
+    }
+
+    /// `msg_pad`: extra bytes in the cellbase witness message (the miner's free-form field), used to
+    /// steer the serialized block size to a chosen value.
+    pub fn assemble_padded(
+        &mut self,
+        parent: usize,
+        pst: &ChainState,
+        ep: MEpoch,
+        ts: u64,
+        recipe: &Recipe,
+        mut committed: Vec<MTx>,
+        mut proposals: Vec<ProposalShortId>,
+        mut uncles: Vec<UncleBlockView>,
+        msg_pad: usize,
+    ) -> usize {
         let pblock = self.blocks[parent].clone();
         let number = pblock.number + 1;
         let frac = ep.fraction(number);
@@ -1477,13 +1710,14 @@ impl World {
         // cellbase
         // miners 250.. use a lock so large that, outside short epochs, the finalised reward cannot fund
         // the reward cell: the cellbase that finalises such a block has no output
-        let miner_lock = if recipe.miner >= 250 { self.lock(&vec![0xC0; 30_000]) } else { self.lock(&[0xC0, recipe.miner]) };
+        // (with a tight block size limit the oversized lock would not fit into any block)
+        let miner_lock = if recipe.miner >= 250 && self.cfg.max_block_bytes > 40_000 { self.lock(&vec![0xC0; 30_000]) } else { self.lock(&[0xC0, recipe.miner]) };
         let mut cb = TransactionBuilder::default()
             .input(CellInput::new_cellbase_input(number))
             .witness(
                 packed::CellbaseWitness::new_builder()
                     .lock(miner_lock)
-                    .message(Bytes::from(vec![recipe.miner; (recipe.seed % 3) as usize]))
+                    .message(Bytes::from(vec![recipe.miner; (recipe.seed % 3) as usize + msg_pad]))
                     .build()
                     .as_bytes(),
             );
@@ -1524,8 +1758,10 @@ impl World {
         // sequential replay inside the block: a transaction may spend an output created earlier in
         // the same block (the creating block's hash is filled in once the header exists)
         let mut interests = 0u64;
+        let mut cycles: Vec<Option<u64>> = Vec::new();
         for (ti, tx) in all_txs.iter().enumerate() {
             if ti > 0 {
+                cycles.push(self.tx_cycles(tx, &cells));
                 interests += self.dao_interest(tx, &cells);
                 for i in tx.inputs().into_iter() {
                     if let Some(c) = cells.remove(&i.previous_output()) {
@@ -1557,6 +1793,11 @@ impl World {
         let mut ext = root.calc_mmr_hash().raw_data().to_vec();
         let mut r2 = simcore::Rng::new(recipe.seed ^ 0xE7);
         ext.extend(r2.bytes(recipe.ext_extra.min(64)));
+        if recipe.mutation.as_deref() == Some("extension_too_long") {
+            // chain root followed by 65 bytes: one more than an extension may have
+            ext.truncate(32);
+            ext.extend(r2.bytes(MAX_EXTENSION_BYTES + 1 - 32));
+        }
 
         let mut bb = BlockBuilder::default()
             .parent_hash(pblock.view.hash())
@@ -1578,6 +1819,34 @@ impl World {
             invalid = why;
         }
         let mut view = bb.build();
+        // block size rule: the serialized block, not counting the proposal ids carried by uncles,
+        // may have at most max_block_bytes bytes
+        if msg_pad == 0 {
+            let limit = self.cfg.max_block_bytes as usize;
+            let uncle_ids: usize = uncles.iter().map(|u| u.data().proposals().len()).sum();
+            let size = view.data().as_slice().len() - PROPOSAL_ID_BYTES * uncle_ids;
+            let want_over = recipe.mutation.as_deref() == Some("block_bytes_over");
+            if want_over || recipe.fill.as_deref() == Some("bytes") {
+                let target = if want_over { limit + 1 } else { limit };
+                if size < target && target - size < 200_000 {
+                    // every byte added to the message adds exactly one byte to the block
+                    return self.assemble_padded(parent, pst, ep, ts, recipe, committed, proposals, uncles, target - size);
+                }
+            }
+            if size > limit && recipe.mutation.is_none() {
+                // a valid block has to fit: give up content, last things first
+                if committed.pop().is_some() || uncles.pop().is_some() || proposals.pop().is_some() {
+                    return self.assemble_padded(parent, pst, ep, ts, recipe, committed, proposals, uncles, 0);
+                }
+            }
+        }
+        if recipe.mutation.as_deref() == Some("block_bytes_over") {
+            // the block is broken only if it really ended up above the limit
+            let uncle_ids: usize = uncles.iter().map(|u| u.data().proposals().len()).sum();
+            if view.data().as_slice().len() - PROPOSAL_ID_BYTES * uncle_ids <= self.cfg.max_block_bytes as usize {
+                invalid = None;
+            }
+        }
         // commitments of the header to the body: broken after the block is put together
         match recipe.mutation.as_deref() {
             Some("tx_root") => {
@@ -1587,6 +1856,9 @@ impl World {
             Some("proposals_hash") => {
                 view = view.as_advanced_builder().proposals_hash(Byte32::from_slice(&r2.bytes(32)).unwrap()).build_unchecked();
                 invalid = Some("proposals_hash".into());
+            }
+            Some("extension_too_long") => {
+                invalid = Some("extension_too_long".into());
             }
             Some("extra_hash") => {
                 view = view.as_advanced_builder().extra_hash(Byte32::from_slice(&r2.bytes(32)).unwrap()).build_unchecked();
@@ -1689,6 +1961,7 @@ impl World {
             invalid,
             chain_valid,
             fees,
+            cycles,
             union_proposals,
             st,
             epoch: ep,
@@ -2077,6 +2350,7 @@ pub fn mutate(
             (bb.set_transactions(txs), Some(m.into()))
         }
         "no_extension" => (bb.extension(None), Some(m.into())),
+        "block_bytes_over" => (bb, Some(m.into())),
         "bad_chain_root" => {
             let e = rng.bytes(32);
             (bb.extension(Some(Bytes::from(e).pack())), Some(m.into()))
@@ -2125,6 +2399,7 @@ impl World {
         let mut cells = pst.cells.clone();
         let mut txs = pst.txs.clone();
         let mut fees = Vec::new();
+        let mut cycles = Vec::new();
         let mut added = 0u64;
         let mut freed = 0u64;
         let all = view.transactions();
@@ -2141,6 +2416,7 @@ impl World {
                     return Err(format!("tx {ti} already committed on this chain"));
                 }
                 let mut inc = 0u64;
+                cycles.push(self.tx_cycles(tx, &cells));
                 for d in tx.cell_deps().into_iter() {
                     if !cells.contains_key(&d.out_point()) {
                         return Err(format!("tx {ti}: cell dep not live"));
@@ -2221,6 +2497,35 @@ impl World {
         if dao.pack() != view.header().dao() {
             return Err(format!("dao field {:?} != model {:?}", Dao::unpack(&view.header().dao()), dao));
         }
+        // limits: proposals (count, no repeats), serialized size without the uncles' proposal ids, script cycles
+        {
+            let props: Vec<ProposalShortId> = view.data().proposals().into_iter().collect();
+            if props.len() as u64 > self.cfg.max_block_proposals {
+                return Err(format!("{} proposals, limit {}", props.len(), self.cfg.max_block_proposals));
+            }
+            let uniq: BTreeSet<&ProposalShortId> = props.iter().collect();
+            if uniq.len() != props.len() {
+                return Err("a proposal id appears twice".into());
+            }
+            let uncle_ids: usize = view.uncles().into_iter().map(|u| u.data().proposals().len()).sum();
+            let size = view.data().as_slice().len() - PROPOSAL_ID_BYTES * uncle_ids;
+            if size as u64 > self.cfg.max_block_bytes {
+                return Err(format!("block size {} above the limit {}", size, self.cfg.max_block_bytes));
+            }
+            if cycles.iter().all(|c| c.is_some()) {
+                let sum: u64 = cycles.iter().map(|c| c.unwrap()).sum();
+                if sum > self.cfg.max_block_cycles {
+                    return Err(format!("block cycles {} above the limit {}", sum, self.cfg.max_block_cycles));
+                }
+            }
+            for u in view.uncles().into_iter() {
+                let up: Vec<ProposalShortId> = u.data().proposals().into_iter().collect();
+                let uu: BTreeSet<&ProposalShortId> = up.iter().collect();
+                if up.len() as u64 > self.cfg.max_block_proposals || uu.len() != up.len() {
+                    return Err("uncle proposal list over the limit or with a repeated id".into());
+                }
+            }
+        }
         // extension / chain root
         let root = self.chain_root(&pst.chain, pblock.number).calc_mmr_hash();
         match view.extension() {
@@ -2279,6 +2584,7 @@ impl World {
             invalid: None,
             chain_valid: pblock.chain_valid,
             fees,
+            cycles,
             union_proposals,
             st: Some(Arc::new(st)),
             epoch: ep,
